@@ -1,6 +1,7 @@
 import EpgVerif.Props.C04
 import EpgVerif.Tie.ShiftSites
 import EpgVerif.Props.C04Multi
+import EpgVerif.Props.C04Grid
 open EpgVerif.Props.C04
 #print axioms get_point
 #print axioms get_shift
@@ -19,3 +20,12 @@ open EpgVerif.Props.C04
 #print axioms EpgVerif.Props.C04.rep_ptMT
 #print axioms EpgVerif.Props.C04.signal_is_sum_of_zero_slots
 #print axioms EpgVerif.Props.C04.rep_runMT
+#print axioms EpgVerif.Props.C04Grid.getGrid_length
+#print axioms EpgVerif.Props.C04Grid.getGrid_given
+#print axioms EpgVerif.Props.C04Grid.getGrid_further
+#print axioms EpgVerif.Props.C04Grid.getGrid_scalar
+#print axioms EpgVerif.Props.C04Grid.getGrid_full
+#print axioms EpgVerif.Props.C04Grid.getGrid_idem
+#print axioms EpgVerif.Props.C04Grid.appendBatchAxes_length
+#print axioms EpgVerif.Props.C04Grid.appendBatchAxes_last
+#print axioms EpgVerif.Props.C04Grid.appendBatchAxes_lead
